@@ -4,6 +4,20 @@ NOTES = ("Every check re-checks the Coq theorems of coq/Props/<id>.v (full .vo b
          "See DESIGN.md for the trusted base and known_findings.json for recorded defects.")
 NOT_APPLICABLE = {}
 CLAIMED = {
+ "C19": {
+  "text": "Partial. Proved through Flocq's real-number semantics, for EVERY double: floor(x) <= x < floor(x)+1, "
+          "ceil(x)-1 < x <= ceil(x), integer(x) truncates toward zero, round(x) is within 1/2 of x, all four are integers; "
+          "for finite |x| < 2^52: inc(x) = floor(x)+1 exactly (least integer greater than x) and dec(x) = ceil(x)-1 "
+          "exactly; bool(string(b)) = b, identity on values of the target type, non-boolean / non-numeric strings are "
+          "errors. Not proved: integer(x)+decimal(x) = x, round_places' envelope, number(string(x)) = x (strconv). "
+          "Those are judged on every generated input by an exact-rational oracle; the strict half-unit bound of "
+          "round_places is refuted (known finding D23).",
+  "design_ref": "DESIGN.md section 5, C19",
+  "note": "Axioms: ClassicalDedekindReals.sig_not_dec, sig_forall_dec, functional_extensionality_dep, "
+          "Classical_Prop.classic (Coq's real numbers). IEEE-754 binary64 = Flocq binary_float 53 1024, round to "
+          "nearest even; math.Floor/Ceil/Trunc/Round = Bnearbyint DN/UP/ZR/NA.",
+  "technique": "Coq/Flocq proofs about the real values of the results + exact-rational oracle and bit-exact correspondence check",
+ },
  "C17": {
   "text": "Partial. Proved on the model of CommandStatement.rearrange/split/valueFromCommandText: true/false are "
           "booleans, exactly the words of the shape -?[0-9]+(\\.[0-9]+)? are numbers, every other word is a string; words "
